@@ -240,6 +240,17 @@ func crashSummary(logPath string) string {
 	}
 	// sizes, addresses and goroutine numbers vary from input to input: keep the fingerprint stable
 	first = digitsRe.ReplaceAllString(first, "N")
+	// every wording of a failed allocation is the same event; inside the rpc dependency the package is the site
+	if strings.HasPrefix(first, "fatal error: out of memory") || strings.Contains(first, "cannot allocate memory") {
+		first = "fatal error: out of memory"
+	}
+	if strings.HasPrefix(frame, "github.com/jcmturner/rpc/") {
+		if i := strings.LastIndex(frame, "/"); i > 0 {
+			if j := strings.Index(frame[i:], "."); j > 0 {
+				frame = frame[:i+j]
+			}
+		}
+	}
 	return first + " @ " + frame
 }
 
